@@ -56,15 +56,15 @@ def run(tier):
     g = dict(base, MaxChain=20)
     sch = cgen(wd, "gen-pairs", g, n, 80)
     v.distinct += distinct_count(sch)
-    conform(v, wd, "pairs-rounds", g, sch)
+    conform(v, wd, "pairs-rounds", g, sch, obs=False)
     g3 = dict(base, Replicas={"r1", "r2", "r3"}, MaxChain=30)
     sch = cgen(wd, "gen-triples", g3, n, 120)
     v.distinct += distinct_count(sch)
-    conform(v, wd, "triples-rounds", g3, sch)
+    conform(v, wd, "triples-rounds", g3, sch, obs=False)
     gn = dict(g3, BaseExists=False, Tasks={"u1", "u2"})
     sch = cgen(wd, "gen-triples-new", gn, n, 120)
     v.distinct += distinct_count(sch)
-    conform(v, wd, "triples-new-task-rounds", gn, sch)
+    conform(v, wd, "triples-new-task-rounds", gn, sch, obs=False)
 
     v.finish("model_checking",
              rule="TLC enumerates all combinations of concurrent operation families (update p, "
